@@ -130,11 +130,24 @@ fn run_history(front: Front, reg: regions::Reg, start: u32, steps: &[Step], faul
     let mut expired_at: Option<usize> = None;
     let mut fault_kinds: Vec<&'static str> = vec![];
     let mut resps: Vec<String> = vec![];
+    // nb front-end: the application also calls send/join in the middle of transactions (same
+    // calls in the fault-free and the faulted runs of one history)
+    let mut intr_rng = Prng::new(seed ^ 0x1a7e);
     for (i, st) in steps.iter().enumerate() {
         // arm the next fault (single-shot, absolute radio-call index)
         dev.log.borrow_mut().fault_at = next_fault;
         let payload = [i as u8, 0xC0, (i * 7) as u8];
         let mut script = Script::default();
+        if front == Front::Nb && intr_rng.chance(1, 3) {
+            let k = match intr_rng.below(4) {
+                0 => Intrusion::Send,
+                1 => Intrusion::SendConfirmed,
+                2 => Intrusion::Join,
+                _ => Intrusion::StrayRx(intr_rng.bytes_below(24)),
+            };
+            script.intrude.push((intr_rng.range(1, 6) as u32, k));
+            col.event("nb_intrusions");
+        }
         let confirmed = matches!(st, Step::ConfAcked | Step::ConfSilent);
         fcnt_down += 1;
         let good = net.downlink(&Down { fcnt: fcnt_down, ack: confirmed, port: Some(5), payload: &[i as u8], ..Default::default() });
